@@ -603,13 +603,22 @@ func (g *Graph) BranchAlways(e Edge, via func(ast.Node) bool) Witness {
 	return w.runRegion(region)
 }
 
+// RunRegion is Run restricted to a syntactic region: starting (inclusive) at
+// From, a path that leaves the region - a node outside it, an empty join block
+// belonging to a statement outside it, or a function exit - is a hit.
+func (w *Walk) RunRegion(region ast.Node) Witness { return w.runRegion(region) }
+
 func (w *Walk) runRegion(region ast.Node) Witness {
 	g := w.G
 	type item struct {
 		b *cfg.Block
 		i int
 	}
-	work := []item{{w.From.B, w.From.I}}
+	start := w.From.I
+	if start < 0 {
+		start = 0
+	}
+	work := []item{{w.From.B, start}}
 	seen := map[*cfg.Block]bool{}
 	for len(work) > 0 {
 		it := work[len(work)-1]
@@ -640,7 +649,10 @@ func (w *Walk) runRegion(region ast.Node) Witness {
 			}
 			continue
 		}
-		for _, s := range b.Succs {
+		for k, s := range b.Succs {
+			if w.Cut != nil && w.Cut(b, k) {
+				continue
+			}
 			if seen[s] {
 				continue
 			}
